@@ -292,7 +292,7 @@ PROPS = {
         },
         "analyze": analyze_generic,
         "oracles": ["deliveredOnce"],
-        "probes": ["bfsOrdered", "batchOrder", "servicesQuiet"],
+        "probes": ["bfsOrdered", "batchOrder", "servicesQuiet", "emissionsFedBackOnce"],
         "rule": CREW_RULE,
     },
     "C15": {
